@@ -12,7 +12,7 @@
     equivalence ([neq_laws]); instances: [Qeq_bool], and [neq_abs] = what areNearlyEqual computes on values that
     are identical or more than one ulp apart. *)
 From Coq Require Import String List Bool ZArith QArith Qabs Arith Permutation.
-From LC Require Import EqualsDefs EqualsSpec EqualsProofs EqualsSimProofs EqualsCorrect EqualsAsIs EqualsMut EqualsSummary EqualsExt EqualsValuesProofs EqualsDetectValuesProofs.
+From LC Require Import EqualsDefs EqualsSpec EqualsProofs EqualsSimProofs EqualsCorrect EqualsAsIs EqualsMut EqualsSummary EqualsExt EqualsValuesProofs EqualsDetectValuesProofs EqualsRound6Proofs.
 Import ListNotations.
 Local Close Scope Q_scope.
 
@@ -367,3 +367,29 @@ Example C10_detects_on_values_nonvacuous :
     /\ eq_entity neq_abs flags_fixed e e' = false /\ eq_entity neq_abs flags_fixed e' e = false.
 Proof. exact EqualsDetectValuesProofs.detects_on_values_nonvacuous. Qed.
 Print Assumptions C10_detects_on_values_nonvacuous.
+
+(** ** Proof depth round 6 (EqualsRound6Proofs.v) *)
+
+(** equal entities are indistinguishable by equals on either side: the equivalence classes are well defined *)
+Theorem C10_equals_congruent : forall neq, neq_laws neq -> forall a b c,
+  eq_entity neq flags_fixed a b = true ->
+  eq_entity neq flags_fixed a c = eq_entity neq flags_fixed b c
+  /\ eq_entity neq flags_fixed c a = eq_entity neq flags_fixed c b.
+Proof. exact EqualsRound6Proofs.equals_congruent. Qed.
+Print Assumptions C10_equals_congruent.
+
+(** reflexivity of the code AS IT IS (any switches) for ANY comparison of doubles: [neq_laws] of
+    C10_equals_refl_asis replaced by the decidable premise on the values of the one entity *)
+Theorem C10_equals_refl_asis_on_values : forall neq fl a,
+  equiv_on neq (doubles_e a) -> eq_entity neq fl a a = true.
+Proof. exact EqualsRound6Proofs.equals_refl_asis_on_values. Qed.
+Print Assumptions C10_equals_refl_asis_on_values.
+
+(** the congruence for ANY comparison of doubles on chain-free values *)
+Theorem C10_equals_congruent_on_values : forall neq a b c,
+  equiv_on neq (doubles_e a ++ doubles_e b ++ doubles_e c) ->
+  eq_entity neq flags_fixed a b = true ->
+  eq_entity neq flags_fixed a c = eq_entity neq flags_fixed b c
+  /\ eq_entity neq flags_fixed c a = eq_entity neq flags_fixed c b.
+Proof. exact EqualsRound6Proofs.equals_congruent_on_values. Qed.
+Print Assumptions C10_equals_congruent_on_values.
